@@ -34,6 +34,15 @@ func (monC05) AtState(x *Exec) {
 			x.Report(&Violation{Property: "C05", Rule: "too-many-invocations", Signature: "count",
 				Msg: fmt.Sprintf("%s was invoked %d times with Retries=%d", e.Path, len(cs), oi.Act.Retries)})
 		}
+		if e.N >= 1 {
+			// every earlier invocation is recorded as one attempt by the time the next one begins (read from the real vault)
+			if p, err := x.ReadPlan(oi.Plan); err == nil {
+				if st := View(p).Objs[e.Path]; st != nil && len(st.Att) != e.N {
+					x.Report(&Violation{Property: "C05", Rule: "invocation-not-recorded-before-the-next", Signature: "count",
+						Msg: fmt.Sprintf("invocation #%d of %s began while the stored action has %d attempts (one per earlier invocation = %d)", e.N, e.Path, len(st.Att), e.N)})
+				}
+			}
+		}
 		if len(cs) >= 2 {
 			prev := cs[len(cs)-2]
 			if !prev.Returned || prev.EndIdx > k {
